@@ -339,9 +339,16 @@ func yield(kind uint32, obj uint64, site uint32, arg int64) uint64 {
 		return ts.arg
 	}
 	wk := atomic.LoadUint32(&ts.wake)
+	gen := atomic.LoadUint32(&w.gen)
 	handOff(next)
 	for atomic.LoadUint32(&ts.wake) == wk {
 		futexWait(&ts.wake, wk)
+	}
+	if atomic.LoadUint32(&w.gen) != gen {
+		// this task belongs to an earlier run that ended in a deadlock; its slot has been reused
+		for {
+			futexWait(&w.zombie, 0)
+		}
 	}
 	return ts.arg
 }
@@ -363,7 +370,9 @@ func finish() {
 	handOff(next)
 }
 
-var taskWG sync.WaitGroup
+// taskWG: the WaitGroup of the CURRENT run (tasks of a deadlocked earlier run never finish and
+// must not be waited for).
+var taskWG *sync.WaitGroup
 
 func spawn(id int32, fn func()) {
 	ts := &w.task[id]
@@ -372,11 +381,18 @@ func spawn(id int32, fn func()) {
 	ts.prio = int64(100 + rnd(1<<20))
 	atomic.StoreUint32(&ts.state, stParked)
 	wk := atomic.LoadUint32(&ts.wake)
-	taskWG.Add(1)
+	gen := atomic.LoadUint32(&w.gen)
+	wg := taskWG
+	wg.Add(1)
 	go func() {
-		defer taskWG.Done()
+		defer wg.Done()
 		for atomic.LoadUint32(&ts.wake) == wk {
 			futexWait(&ts.wake, wk)
+		}
+		if atomic.LoadUint32(&w.gen) != gen {
+			for {
+				futexWait(&w.zombie, 0)
+			}
 		}
 		defer finish()
 		fn()
@@ -419,6 +435,8 @@ func Run(cfg Config, fns ...func()) Report {
 	for i := range w.wgs {
 		w.wgs[i] = wgSlot{}
 	}
+	atomic.AddUint32(&w.gen, 1)
+	taskWG = &sync.WaitGroup{}
 	w.rng = cfg.Seed
 	w.strategy = uint32(cfg.Strategy)
 	w.replay = 0
